@@ -321,11 +321,16 @@ PLAN["C05"] = {
 PLAN["C05"]["insts"][-1].expect = "fail"
 
 _c13 = []
-for fam, men, mode, tiers in (("krk_btm", 1, 0, ("quick", "thorough")), ("kqk_wtm", 1, 0, ("quick", "thorough")), ("kpk_btm", 1, 0, ("thorough",)),
-                              ("kbnk_btm", 2, 0, ("thorough",)), ("kpkp_wtm", 2, 1, ("quick", "thorough")), ("kppk_wtm", 2, 1, ("thorough",)),
+for fam, men, mode, tiers in (("krk_btm", 1, 0, ("thorough",)), ("kqk_wtm", 1, 0, ("thorough",)), ("kpk_btm", 1, 0, ("thorough",)),
+                              ("kbnk_btm", 2, 0, ("thorough",)), ("kpkp_wtm", 2, 1, ("thorough",)), ("kppk_wtm", 2, 1, ("thorough",)),
                               ("krkn_btm", 2, 1, ("thorough",)), ("kqkb_wtm", 2, 1, ("thorough",)), ("kbpkn_wtm", 3, 1, ("thorough",))):
     for which in ("negation", "mirror"):
         _c13.append(_eval_inst("%s_%s" % (fam, which), "C13 " + which, men, tiers, 7200, 14, LEGAL_STUB if mode == 0 else NONTERM_STUB, mod="c13"))
+# quick tier: one negation and one mirror query (each 10-20 min of SAT solving over IEEE floats; slicing the
+# query by the file of the man was measured and only bought a factor 1.7 for 8x the CPU and memory)
+for _i in _c13:
+    if _i.name in ("c13::krk_btm_negation", "c13::kqk_wtm_mirror"):
+        _i.tiers = ("quick", "thorough")
 _c13.append(Inst("c13::lemma_weighting_is_odd", crate="engine", sub="C13 lemma", timeout=1200, functions=("<Evaluation as Mul<f32>>::mul", "<Evaluation as Neg>::neg"),
                  bounds="x in [-2^20, 2^20], weights 1.0 / 0.8 / 0.2"))
 _w = _eval_inst("reach_witness", "vacuity", 1, ("quick", "thorough"), 1800, 10, LEGAL_STUB, mod="c13")
@@ -435,17 +440,21 @@ def prereq_c09(workdir):
     files = [core + f for f in ("attacks.rs", "board.rs", "common.rs", "utils.rs", "piece.rs", "color.rs", "lib.rs")]
     files += [REPO + "/weechess-core/Cargo.toml", REPO + "/Cargo.lock"]
     files += [os.path.join(ROOT, f) for f in ("harness/core/src/c09.rs", "harness/core/src/lib.rs", "harness/common/geo.rs",
-                                              "harness/common/shim.rs", "tools/tabledump/src/main.rs", "lib/vdriver.py")]
+                                              "harness/common/shim.rs", "tools/tabledump/src/main.rs")]
     key = _sha(files)
     cdir = os.environ.get("VERIF_PREREQ_CACHE") or os.path.join(ROOT, "work", "prereq")
     os.makedirs(cdir, exist_ok=True)
     cf = os.path.join(cdir, "C09-%s.json" % key)
-    if os.path.exists(cf):
-        rc = json.load(open(cf))["exit"]
-    else:
-        vdriver.log("[prereq] C09 has no verdict for this tree yet (key %s): running its quick tier first" % key)
-        rc = vdriver.check("C09", PLAN["C09"], "quick", None, 0, evidence=False)
-        json.dump({"exit": rc, "key": key}, open(cf, "w"))
+    import fcntl
+    with open(os.path.join(cdir, "gate.lock"), "w") as lk:
+        fcntl.flock(lk, fcntl.LOCK_EX)  # concurrent checks share one gate run
+        if os.path.exists(cf):
+            rc = json.load(open(cf))["exit"]
+        else:
+            vdriver.log("[prereq] C09 has no verdict for this tree yet (key %s): running its quick tier first" % key)
+            rc = vdriver.check("C09", PLAN["C09"], "quick", None, 0, evidence=False)
+            if rc in (0, 1):  # an inconclusive gate run is retried next time, never cached
+                json.dump({"exit": rc, "key": key}, open(cf, "w"))
     if rc == 0:
         return True, ""
     return False, ("C09 (lookup tables = geometry) does not hold or could not be decided on this tree (exit %d): checks that "
